@@ -34,6 +34,7 @@ struct C08Plan
   int release_creator_during[C08_MAXOBJ];  // thread 0 drops the creator reference while the threads run
   int barrier_at[C08_MAXTHREADS];          // op index after which a thread no longer reads thread 0's handles
   int t0_drops_during;                     // thread 0 destroys all its handles while the threads still run
+  int fast_forward;                        // object 0 starts out with 2^32-4 further explicit references (state injection)
 };
 extern "C" {
 const C08Plan *c08_plan();
@@ -51,5 +52,6 @@ int c08_obj_alive(int obj);
 int c08_payload_owner(int obj);
 void c08_barrier_arrive(int tid);
 void c08_wait_barriers(int n);
+void c08_fast_forward(int obj, long long delta);
 void c08_run();
 }
